@@ -3,11 +3,12 @@ import os, time, multiprocessing as mp
 import z3
 
 _VCS = []
-RLIMIT = int(os.environ.get('PYVC_RLIMIT', '60000000'))
+RLIMIT = int(os.environ.get('PYVC_RLIMIT', '600000000'))
 TIMEOUT_MS = int(os.environ.get('PYVC_TIMEOUT_MS', '120000'))
 
 
 FAST_RLIMIT = int(os.environ.get('PYVC_FAST_RLIMIT', '3000000'))
+MBQI_TIMEOUT_MS = int(os.environ.get('PYVC_MBQI_TIMEOUT_MS', '40000'))
 EMATCH_RLIMIT = int(os.environ.get('PYVC_EMATCH_RLIMIT', '8000000'))
 
 
@@ -22,15 +23,21 @@ def _solve(i, rlimit=None):
     # also produce counter-models.
     r = None
     quant = vc.quant
-    for attempt in ((1, 2) if quant and vc.expect != 'sat' else (2,)):
+    attempts = (1, 2) if quant and vc.expect != 'sat' else (2,)
+    if vc.drop and quant and vc.expect != 'sat': attempts = (0,) + attempts
+    for attempt in attempts:
         s = z3.Solver()
-        if attempt == 1:
-            s.set('auto_config', False); s.set('mbqi', False); s.set('rlimit', min(rlimit or RLIMIT, EMATCH_RLIMIT))
+        hyps = vc.hyps
+        if attempt == 0:      # sliced hypotheses, E-matching only
+            dr = set(vc.drop); hyps = [h for i, h in enumerate(vc.hyps) if i not in dr]
+            s.set('auto_config', False); s.set('mbqi', False); s.set('rlimit', min(rlimit, EMATCH_RLIMIT) if rlimit else RLIMIT)
+        elif attempt == 1:
+            s.set('auto_config', False); s.set('mbqi', False); s.set('rlimit', min(rlimit, EMATCH_RLIMIT) if rlimit else RLIMIT)
         else:
             s.set('rlimit', rlimit or RLIMIT)
-        s.set('timeout', TIMEOUT_MS)
+        s.set('timeout', TIMEOUT_MS if attempt == 1 or not quant else MBQI_TIMEOUT_MS)
         # normalise arithmetic sub-terms (R - k - 1 vs R + -1*k - 1) so that equal index expressions are syntactically equal
-        for h in vc.hyps: s.add(z3.simplify(h, som=True))
+        for h in hyps: s.add(z3.simplify(h, som=True))
         s.add(z3.simplify(z3.Not(vc.goal), som=True))
         try: r = s.check()
         except z3.Z3Exception as ex:
